@@ -89,6 +89,27 @@ type Check struct {
 	// and is classified by DeathSig.
 	RaceSeeds func(tier string) int
 	Workers   int // 0: default
+	// Legs: further batches of the same check executed after the main one, each with
+	// its own generator (e.g. the cluster leg of a check whose main leg runs in World I).
+	// Exec / Shrink / DeathSig of the check must recognise a leg's cases by content, so
+	// that a replay file needs nothing but the case.
+	Legs []Leg
+}
+
+type Leg struct {
+	Name         string
+	Seeds        func(tier string) int
+	Gen          func(r *simrt.Rand, tier string) json.RawMessage
+	RecycleEvery int
+}
+
+func (c *Check) genFor(leg string) func(r *simrt.Rand, tier string) json.RawMessage {
+	for _, l := range c.Legs {
+		if l.Name == leg && leg != "" {
+			return l.Gen
+		}
+	}
+	return c.Gen
 }
 
 var registry = map[string]*Check{}
@@ -227,6 +248,7 @@ type workerResult struct {
 	Viol    []Violation `json:"viol,omitempty"`    // after shrinking
 	CaseLen int         `json:"case_len"`
 	Shrinks int         `json:"shrinks"`
+	leg     string
 }
 
 func seedFor(root uint64, i int) uint64 {
@@ -290,7 +312,7 @@ func watchdog(seed uint64, limit time.Duration) func() {
 func runSeed(c *Check, tier string, root, seed uint64) workerResult {
 	// (the wall-clock / memory watchdog lives in the parent: a real-time timer in
 	// this process would perturb the goroutine schedule of the simulation)
-	cs := c.Gen(simrt.NewRand(seed), tier)
+	cs := c.genFor(os.Getenv("VERIF_LEG"))(simrt.NewRand(seed), tier)
 	o := safeExec(c, cs, false)
 	res := workerResult{Seed: seed, Outcome: o, CaseLen: len(cs)}
 	if o.Harness != "" || len(o.Violations) == 0 {
@@ -578,7 +600,10 @@ func runParent(c *Check, tier string, root uint64) int {
 	harnessTrouble := ""
 	deadline := start.Add(maxWall)
 	next := 0
-	runPool := func(bin, leg string, nseeds, nw int, seedOffset int) {
+	runPool := func(bin, leg string, nseeds, nw int, seedOffset int, recycleEvery int) {
+		if nw > nseeds {
+			nw = nseeds
+		}
 		var mu sync.Mutex
 		next = 0
 		takeSeed := func() (uint64, bool) {
@@ -639,13 +664,14 @@ func runParent(c *Check, tier string, root uint64) int {
 						r.Outcome.Stats = st
 						r.Outcome.Stats[leg+"_leg_runs"] = 1
 					}
+					r.leg = leg
 					results = append(results, r)
 					if r.Outcome.Harness != "" && harnessTrouble == "" {
 						harnessTrouble = fmt.Sprintf("seed %d: %s", r.Seed, r.Outcome.Harness)
 					}
 					mu.Unlock()
 					served++
-					if r.Outcome.Poisoned || (c.RecycleEvery > 0 && served >= c.RecycleEvery) {
+					if r.Outcome.Poisoned || (recycleEvery > 0 && served >= recycleEvery) {
 						served = 0
 						w.stdin.Close()
 						w.cmd.Process.Kill()
@@ -657,7 +683,7 @@ func runParent(c *Check, tier string, root uint64) int {
 		}
 		wg.Wait()
 	}
-	runPool("", "", seeds, nw, 0)
+	runPool("", "", seeds, nw, 0, c.RecycleEvery)
 	mainNext := next
 	if rb := os.Getenv("VERIF_RACE_BIN"); rb != "" && c.RaceSeeds != nil {
 		rs := c.RaceSeeds(tier)
@@ -668,7 +694,29 @@ func runParent(c *Check, tier string, root uint64) int {
 		}
 		if rs > 0 {
 			os.Setenv("GORACE", "halt_on_error=1")
-			runPool(rb, "race", rs, nw, 0)
+			runPool(rb, "race", rs, nw, 0, c.RecycleEvery)
+		}
+	}
+	legNext := map[string][2]int{}
+	for _, l := range c.Legs {
+		ls := l.Seeds(tier)
+		if s := os.Getenv("VERIF_LEG_SEEDS"); s != "" {
+			if n, err := strconv.Atoi(s); err == nil {
+				ls = n
+			}
+		}
+		if ls > 0 {
+			nwl := c.Workers
+			if nwl == 0 {
+				nwl = runtime.NumCPU()
+			}
+			if s := os.Getenv("VERIF_WORKERS"); s != "" {
+				if n, err := strconv.Atoi(s); err == nil && n > 0 {
+					nwl = n
+				}
+			}
+			runPool("", l.Name, ls, nwl, 0, l.RecycleEvery)
+			legNext[l.Name] = [2]int{next, ls}
 		}
 	}
 	next = mainNext
@@ -720,7 +768,7 @@ func runParent(c *Check, tier string, root uint64) int {
 			if i < len(r.Replays) {
 				rp = r.Replays[i]
 			}
-			fresh = append(fresh, vrec{v, rp, r.Seed, ""})
+			fresh = append(fresh, vrec{v, rp, r.Seed, r.leg})
 		}
 	}
 	// Pinned cases: the committed example of every open finding of this property is
@@ -769,7 +817,7 @@ func runParent(c *Check, tier string, root uint64) int {
 			fmt.Fprintf(os.Stderr, "%s\n", tail(d.stderr, 3000))
 			return 2
 		}
-		dcs := c.Gen(simrt.NewRand(d.seed), tier)
+		dcs := c.genFor(d.leg)(simrt.NewRand(d.seed), tier)
 		sig, msg := c.DeathSig(d.stderr, dcs)
 		if d.leg != "" {
 			stats[d.leg+"_leg_runs"]++
@@ -786,7 +834,7 @@ func runParent(c *Check, tier string, root uint64) int {
 			continue
 		}
 		// write a seed-only replay file
-		cs := c.Gen(simrt.NewRand(d.seed), tier)
+		cs := c.genFor(d.leg)(simrt.NewRand(d.seed), tier)
 		rf := ReplayFile{Property: c.ID, Sig: sig, Msg: msg, Seed: d.seed, RootSeed: root, Tier: tier, Case: cs, OrigSize: len(cs)}
 		path := filepath.Join(replayDir(), fmt.Sprintf("%s-%d-death.json", c.ID, d.seed))
 		b, _ := json.MarshalIndent(rf, "", " ")
@@ -882,6 +930,7 @@ func runParent(c *Check, tier string, root uint64) int {
 		"violations_confirmed":   confirmed,
 		"violations_unconfirmed": unconfirmed,
 		"stopped_by_wall_clock":  next < seeds,
+		"legs":                   legNext,
 		"distinct_measure":       "distinct hashes of the canonical per-run event sequence among runs that are non-trivial by the rule",
 	}
 	ev := evidence{PropertyID: c.ID, Tier: tier, Seed: int64(root & 0x7fffffffffffffff), Level: c.Level, Coverage: cov,
